@@ -152,3 +152,77 @@ Example C09_nonvacuous_scope :
   exists ir, compile_program scope_prog = Some ir /\
   exists k, map (fun x => den (sto x) (TVar 0)) (fst (query 10 ir (d "t") [TVar 0] {| sto := []; nxt := 1 |})) = [TFun (d "else") [TVar k]].
 Proof. eexists. split; [vm_compute; reflexivity|]. eexists. vm_compute. reflexivity. Qed.
+(* round 3: findall unifies the bag only AFTER the enumeration of G is complete.  What is collected - the list of
+   instances and the variable counter, or the fact that G ended in an error - is a function of the call, the template,
+   the goal and the state of the call (findall_collected), fixed before the bag l is looked at; the bag is then unified
+   with that list in the store of the call.  So G runs in the state of the call whatever the bag is (unbound, closed or
+   partial list, sharing variables with G or not), and no binding flows from the bag into the enumeration of G. *)
+Theorem C09_findall_bag_after_enumeration : forall call t g s,
+  exists r : option (list term * nat),
+    r = findall_collected call t g s /\
+    forall l, builtin call (s_ "findall") [t; g; l] s =
+              Some (match r with
+                    | None => ([], true)
+                    | Some (es, b) => unify_st {| sto := sto s; nxt := b |} l (mk_list es)
+                    end).
+Proof. exact findall_bag_after_enumeration. Qed.
+Print Assumptions C09_findall_bag_after_enumeration.
+
+(* non-vacuity: a goal whose SECOND answer exists only while V is unbound-or-b, called with a partial list as bag that
+   shares V with the goal through the first instance:
+     r(V,X) :- X = V.      r(V,X) :- V = b, X = c.      t(V,T) :- findall(X, r(V,X), [a|T]).
+   On its own r(V,X) has the answers X = V and V = b, X = c, so the instances are [V, c] and [a|T] = [V, c] gives
+   V = a, T = [c].  (Matching the bag while r is still running would bind V to a after the first answer and lose the
+   second: T = [].) *)
+Definition bag_prog : program :=
+  [ {| c_name := d "r"; c_args := [SVar (d "V"); SVar (d "X")]; c_body := BCall (d "=") [SVar (d "X"); SVar (d "V")] |};
+    {| c_name := d "r"; c_args := [SVar (d "V"); SVar (d "X")];
+       c_body := BAnd (BCall (d "=") [SVar (d "V"); SAtom (d "b")]) (BCall (d "=") [SVar (d "X"); SAtom (d "c")]) |};
+    {| c_name := d "t"; c_args := [SVar (d "V"); SVar (d "T")];
+       c_body := BCall (d "findall") [SVar (d "X"); SFun (d "r") [SVar (d "V"); SVar (d "X")]; SPair (SAtom (d "a")) (SVar (d "T"))] |} ].
+Example C09_bag_nonvacuous :
+  good_program bag_prog /\
+  exists ir, compile_program bag_prog = Some ir /\
+  map (fun x => (den (sto x) (TVar 0), den (sto x) (TVar 1))) (fst (query 10 ir (d "t") [TVar 0; TVar 1] {| sto := []; nxt := 2 |}))
+  = [(TAtom (d "a"), mk_list [TAtom (d "c")])].
+Proof.
+  split.
+  - repeat constructor.
+  - eexists. split; [vm_compute; reflexivity|]. vm_compute. reflexivity.
+Qed.
+
+(* round 3: findall(T,G,L) is "collect, then match": findall(T,G,V), L = V for a new variable V (unbound, occurring
+   neither in L nor in the collected list).  The first step succeeds exactly once and binds only V; matching L against
+   V afterwards ends exactly as the direct call does (success / failure / error) with the SAME new bindings nw; the two
+   final stores differ only by the binding of the auxiliary V. *)
+Theorem C09_findall_is_collect_then_match : forall call t g l s v es b,
+  wf (sto s) -> lookup v (sto s) = None ->
+  occurs v (den (sto s) l) = false ->
+  findall_collected call t g s = Some (es, b) ->
+  occurs v (den (sto s) (mk_list es)) = false ->
+  let m := den (sto s) (mk_list es) in
+  let s1 := {| sto := (v, m) :: sto s; nxt := b |} in
+  builtin call (s_ "findall") [t; g; TVar v] s = Some ([s1], false) /\
+  match unify ufuel [] (den (sto s) l) m with
+  | UOk nw => builtin call (s_ "findall") [t; g; l] s = Some ([{| sto := nw ++ sto s; nxt := b |}], false) /\
+              unify_st s1 l (TVar v) = ([{| sto := nw ++ (v, m) :: sto s; nxt := b |}], false)
+  | UFail => builtin call (s_ "findall") [t; g; l] s = Some ([], false) /\ unify_st s1 l (TVar v) = ([], false)
+  | _ => builtin call (s_ "findall") [t; g; l] s = Some ([], true) /\ unify_st s1 l (TVar v) = ([], true)
+  end.
+Proof. exact findall_as_fresh_bag_then_unify. Qed.
+Print Assumptions C09_findall_is_collect_then_match.
+
+(* non-vacuity: the hypotheses hold for the call of bag_prog above - template X = cell 2, goal r(V,X) with V = cell 0,
+   bag [a|T] with T = cell 1, auxiliary variable cell 3, in the empty store with 4 cells allocated; the collected list is
+   [V, c] and the match binds V to a and T to [c] *)
+Example C09_collect_then_match_nonvacuous :
+  let call := query 9 (match compile_program bag_prog with Some ir => ir | None => [] end) in
+  let s := {| sto := []; nxt := 4 |} in
+  let g := TFun (d "r") [TVar 0; TVar 2] in
+  let l := cons_term (TAtom (d "a")) (TVar 1) in
+  findall_collected call (TVar 2) g s = Some ([TVar 0; TAtom (d "c")], 4) /\
+  wf (sto s) /\ lookup 3 (sto s) = None /\ occurs 3 (den (sto s) l) = false /\
+  occurs 3 (den (sto s) (mk_list [TVar 0; TAtom (d "c")])) = false /\
+  unify ufuel [] (den (sto s) l) (den (sto s) (mk_list [TVar 0; TAtom (d "c")])) =
+    UOk [(1, mk_list [TAtom (d "c")]); (0, TAtom (d "a"))].
+Proof. vm_compute. repeat split; constructor. Qed.
